@@ -24,6 +24,8 @@ EXTENDS Integers, Sequences, FiniteSets, TLC, Json
 CONSTANTS Routers,      \* header_sync routers (trust-root installation needs the operator)
           Actors,       \* key-holding actors that may sign: "op" (operator), "opweak" (operator keys, smaller threshold),
                         \* "opold" (multi-sig of another validator set), "val" (one validator), "owner", "stranger"
+          ExtraActors,  \* further multi-signature actors over the validators' keys with another threshold ("op1": 1-of-n, "op4":
+                        \* n-of-n); they sign alone or together with the stranger (keeps the table small)
           CtxDepth,     \* longest chain of calling contracts (0: direct calls only)
           EmitOn
 
@@ -83,21 +85,26 @@ Due(c) == c.m = "nm.commitDpos" /\ c.ep.delta >= 0
 CtxFor(named) == IF named = "C1" THEN SeqsUpTo(Contracts, CtxDepth)
                  ELSE IF CtxDepth = 0 THEN {<<>>} ELSE {<<>>, <<"C2">>}          \* nesting only where it matters
 EpochsFor(m) == IF m = "nm.commitDpos" THEN {e \in Epochs : Fits32(HeightAt(e.mb, e.vh, e.delta))} ELSE {NoEpoch}
-IsCall(c) == /\ c.m \in Methods /\ c.named \in NamedFor(c.m) /\ c.signers \subseteq Actors
-             /\ c.ctx \in CtxFor(c.named) /\ c.ep \in EpochsFor(c.m)
+SignerSets == (SUBSET Actors) \cup {{x} \cup r : x \in ExtraActors, r \in {{}, {"stranger"}}}
+(* how the signer addresses reach CheckWitness: "verified" - the transaction went through validation.VerifyTransaction, which
+   caches them; "decoded" - a freshly deserialized copy (block-synced transactions are not re-verified), the addresses are derived
+   from the signature programs.  Both must yield the same witnesses. *)
+PathsFor(cx) == IF cx = <<>> THEN {"verified", "decoded"} ELSE {"verified"}
+IsCall(c) == /\ c.m \in Methods /\ c.named \in NamedFor(c.m) /\ c.signers \in SignerSets
+             /\ c.ctx \in CtxFor(c.named) /\ c.ep \in EpochsFor(c.m) /\ c.path \in PathsFor(c.ctx)
 
 Witnessed(c) == CheckWitness(Required(c.m, c.named), c.signers, c.ctx)
 Allowed(c) == Witnessed(c) \/ Due(c)     \* once the epoch is due anybody may commit it
 
-Init == /\ \E m \in Methods : \E n \in NamedFor(m) : \E sg \in SUBSET Actors : \E cx \in CtxFor(n) : \E e \in EpochsFor(m) :
-              call = [m |-> m, named |-> n, signers |-> sg, ctx |-> cx, ep |-> e]
+Init == /\ \E m \in Methods : \E n \in NamedFor(m) : \E sg \in SignerSets : \E cx \in CtxFor(n) : \E e \in EpochsFor(m) :
+              \E pa \in PathsFor(cx) : call = [m |-> m, named |-> n, signers |-> sg, ctx |-> cx, ep |-> e, path |-> pa]
         /\ verdict = "pending" /\ changed = FALSE
 Decide == /\ verdict = "pending"
           /\ verdict' = IF Allowed(call) THEN "accept" ELSE "reject"
           /\ changed' = Allowed(call)
           /\ UNCHANGED call
           /\ (~EmitOn \/ PrintT(<<"ROW", ToJson([m |-> call.m, named |-> call.named, signers |-> call.signers, ctx |-> call.ctx,
-                                                  due |-> Due(call), ep |-> call.ep,
+                                                  due |-> Due(call), ep |-> call.ep, path |-> call.path,
                                                   mbv |-> IF call.ep = NoEpoch THEN <<0, 0>> ELSE EpochLens[call.ep.mb],
                                                   vhv |-> IF call.ep = NoEpoch THEN <<0, 0>> ELSE ViewHeights[call.ep.vh],
                                                   hv |-> IF call.ep = NoEpoch THEN <<0, 0>> ELSE HeightAt(call.ep.mb, call.ep.vh, call.ep.delta),
